@@ -233,7 +233,8 @@ impl VerifiableHeader {
 
 // ckb_systemtime
 #[verifier::external_body]
-pub fn unix_time_as_millis() -> (r: u64) { unimplemented!() }
+pub fn unix_time_as_millis() -> (r: u64) ensures is_now(r) { unimplemented!() }
+pub uninterp spec fn is_now(t: u64) -> bool;          // t is a reading of the local clock taken during this call
 
 // ckb_network
 pub type PeerIndex = usize;   // newtype over usize in ckb-network (SessionId); only copied and compared here
